@@ -528,6 +528,12 @@ func sliceOfArgumentScope(v ssa.Value, depth int) (string, bool) {
 				walk(y.Call.Args[0])
 				return
 			}
+			// library functions whose result shares the argument's backing array
+			switch facts.CalleeName(&y.Call) {
+			case "slices.Compact", "slices.CompactFunc", "slices.Delete", "slices.DeleteFunc", "slices.Clip":
+				walk(y.Call.Args[0])
+				return
+			}
 			roots = append(roots, x)
 		default:
 			roots = append(roots, x)
@@ -548,6 +554,11 @@ func rootOfArgumentScope(first ssa.Value, depth int) (string, bool) {
 			return "", false
 		}
 		h := p.Parent()
+		if len(privateCallSites(h)) == 0 && h.Parent() == nil {
+			// a slice handed in by the caller of an exported constructor (NewScope(rss...)):
+			// its backing array stays the caller's
+			return "the caller's slice " + p.Name(), true
+		}
 		pi := -1
 		for i, q := range h.Params {
 			if q == p {
@@ -579,6 +590,27 @@ func rootOfArgumentScope(first ssa.Value, depth int) (string, bool) {
 		if al, isAl := u.X.(*ssa.Alloc); isAl {
 			if sts := facts.StoresTo(al); len(sts) == 1 {
 				b = facts.Resolve(sts[0].Val)
+			}
+		}
+	}
+	// a field of a scope under construction that was first set to a caller-owned
+	// slice (`s.others = rss[:0]`) and is then appended to
+	if al, isAl := facts.Resolve(base).(*ssa.Alloc); isAl && depth > 0 && al.Referrers() != nil {
+		for _, ref := range *al.Referrers() {
+			fa2, ok := ref.(*ssa.FieldAddr)
+			if !ok {
+				continue
+			}
+			if _, f2, _ := facts.FieldOf(fa2); f2 != fld {
+				continue
+			}
+			for _, st := range facts.StoresTo(fa2) {
+				if _, isCall := st.Val.(*ssa.Call); isCall {
+					continue // the append results themselves
+				}
+				if f3, bad := sliceOfArgumentScope(st.Val, depth-1); bad {
+					return f3, true
+				}
 			}
 		}
 	}
